@@ -238,6 +238,9 @@ func runC12(p *P, r *R) {
 		return constructHas(o, "testing the header's message type", "validated before it is returned")
 	})
 	c12MapperNeverCreates(p, r)
+	// R12.9 both ends map the very same queue memory: creator and every mapper cut the region at the same place and wire
+	// send/recv crosswise (shared with C03 R03.3)
+	borrow(p, r, "C03", runC03, map[string]string{"R03.3": "R12.9"}, nil)
 }
 
 // R12.2
